@@ -1008,7 +1008,7 @@ func c09state(c *an.Ctx) {
 				return
 			}
 			for _, e := range row.effects {
-				if f.Name() == e {
+				if an.BaseName(f) == e {
 					effects = append(effects, in)
 				}
 			}
